@@ -159,6 +159,10 @@ class Built:
                 return os.path.relpath(os.path.realpath(os.path.join(self.base, e[1])), self.base)
         return None
 
+    def marks(self) -> list[str]:
+        """texts that only the name of an entry OUTSIDE the document root contains"""
+        return [MARK]
+
     def close(self) -> None:
         shutil.rmtree(self.base, ignore_errors=True)
 
@@ -167,6 +171,50 @@ class Built:
 
     def __exit__(self, *a):
         self.close()
+
+
+class View(Built):
+    """The tree of a `Built` as a server sees it whose document root is ANOTHER directory of that tree (`rootrel`,
+    relative to the base directory; "" = the base directory itself): several servers / locations of one process, each
+    judged against ITS root.  Owns nothing: closing it does not remove the tree."""
+
+    def __init__(self, built: Built, rootrel: str):
+        self.base = built.base
+        self.rootrel = rootrel.strip("/")
+        self._built = built
+
+    @property
+    def ents(self):
+        return self._built.ents
+
+    @property
+    def root(self) -> str:
+        return os.path.join(self.base, self.rootrel) if self.rootrel else self.base
+
+    def outside_ids(self) -> list[int]:
+        root = os.path.realpath(self.root)
+        out = []
+        for e in self.ents:
+            if e[0] == "f":
+                rp = os.path.realpath(os.path.join(self.base, e[1]))
+                if not rp.startswith(root.rstrip(os.sep) + os.sep):
+                    out.append(e[2])
+        return sorted(out)
+
+    def marks(self) -> list[str]:
+        """the marker names (each exists once in a tree) of the directories that lie outside THIS root"""
+        root = os.path.realpath(self.root)
+        out = []
+        for e in self.ents:
+            name = e[1].rsplit("/", 1)[-1]
+            if e[0] == "f" and name.startswith(MARK):
+                rp = os.path.realpath(os.path.join(self.base, e[1]))
+                if not rp.startswith(root.rstrip(os.sep) + os.sep):
+                    out.append(name)
+        return out
+
+    def close(self) -> None:
+        pass
 
 
 def settle(ents):
@@ -476,7 +524,7 @@ def canon_response(status, meta, body, req_path, built: "Built"):
     """(compared part, oracle part) of one response"""
     text = (meta or "") + "\n" + (body or "")
     # (no generated request spelling contains the marker name, so an echo of the request cannot produce it)
-    x = {"st": status, "sent": sentinels_in(text), "metasent": sentinels_in(meta or ""), "mark": MARK in text,
+    x = {"st": status, "sent": sentinels_in(text), "metasent": sentinels_in(meta or ""), "mark": any(m in text for m in built.marks()),
          "nobody": body is None or body == ""}
     # ground truth independent of handler and model: does the requested path - canonical form, a trailing slash meaning
     # "a directory" - resolve to anything at all?
@@ -486,11 +534,11 @@ def canon_response(status, meta, body, req_path, built: "Built"):
         try:
             # "resolves" in the sense of the property: Path.resolve(strict=True) = os.path.realpath (which cancels `..` in link targets
             # lexically - not always what the kernel's own walk does; the handler's notion is the one the property speaks of)
-            real = os.path.realpath(os.path.join(built.base, "root", canon.strip("/")) if canon != "/" else os.path.join(built.base, "root"), strict=True)
+            real = os.path.realpath(os.path.join(built.root, canon.strip("/")) if canon != "/" else built.root, strict=True)
             x["resolves"] = os.path.isdir(real) if canon.endswith("/") else True
             # ... and is the place it resolves to the document root or something below it?
-            rr = os.path.realpath(os.path.join(built.base, "root"))
-            x["inside"] = real == rr or real.startswith(rr + os.sep)
+            rr = os.path.realpath(built.root)
+            x["inside"] = real == rr or real.startswith(rr.rstrip(os.sep) + os.sep)
             x["dir"] = os.path.isdir(real)
         except (OSError, ValueError):
             x["resolves"] = False
